@@ -910,10 +910,11 @@ def _frame_monitor(findings, op, parent, name, raw_slot, T0, T1, texts0, pf0, pl
         findings.append((SIG_FRAME, f'{where}: surviving tokens changed their order'))
     # "directly adjacent": a call that edits one place has one window without any surviving visible token in it, i.e.
     # every separator that appears / disappears is contiguous with the child (calls that edit several places -
-    # extended slices, drop_many, non-contiguous view operations - are exempt: their window spans the places)
+    # extended slices, drop_many, non-contiguous view operations, a mapping update with two keys (an existing key is
+    # rewritten where it stands, a missing one is appended after the last item) - are exempt: their window spans the places)
     k = op['op']
     multi = (k == 'drop_many' or (k in ('setslice', 'delslice') and op.get('s') and op['s'][2] not in (None, 1))
-             or (op.get('kind') == 'val' and k in ('setslice', 'delslice', 'clear', 'discard', 'extend', 'iadd')))
+             or (op.get('kind') == 'val' and k in ('setslice', 'delslice', 'clear', 'discard', 'extend', 'iadd', 'map_update')))
     if not multi:
         stray = [t for t in W1 if id(t) in ids0 and not is_sep_text(t.raw_text) and id(t) not in new_tokens]
         if stray:
@@ -1744,6 +1745,14 @@ _POP = lambda i: {**_F, 'op': 'pop', 'i': i, 'donors': []}
 _STRESS = ([_INS(3)] * 4 + [_POP(9)] * 5 + [_INS(1)] * 3 + [_POP(2)] * 6 + [_INS(6)] * 3 + [_POP(-2)] * 4
            + [{**_F, 'op': 'delslice', 's': [2, 6, None], 'donors': []}, _INS(0), _INS(0), _POP(4), _POP(4), _POP(1)])
 CORPUS += [(_STRESS_TEXT, _STRESS, lf) for lf in (2, 3, 4, 5)]
+
+# a mapping update with an existing and a missing key edits two places (the first item's value where it stands, a new
+# item behind the last one): the item between them lies in the changed window and is untouched - a legitimate edit
+# (the monitor once held it against the code: false alarm of the machinery, DESIGN §19 session 6)
+_BAL = [['raw_directives_with_comments', 0]]
+CORPUS += [('2000-01-01 balance Assets:Bank:Checking 12.50\tHOOL\n      note:  -4 USD  \n      foo-bar:\tNULL\n\n2000-01-02 open Assets:A\n',
+            [{'parent': _BAL, 'attr': 'meta', 'kind': 'val', 'raw': 'raw_meta_with_comments', 'plain': True, 'op': 'map_update',
+              'key': 'missing-key', 'key2': 'note', 'values': ['v', 'w']}], lf) for lf in (3, 1000)]
 
 
 def run_slots(ctx: common.Ctx, props, n_docs: int, n_ops: int):
